@@ -27,6 +27,7 @@ enum Place {
 }
 use Place::*;
 mod runall;
+mod thenfilter;
 
 /// order everywhere: excl_line, excl_start, excl_stop, excl_br_line, excl_br_start, excl_br_stop
 struct PatSet {
@@ -1546,10 +1547,12 @@ pub fn run(rep: &mut Report) {
         }
     }
     runall::run(rep);
+    thenfilter::run(rep);
 }
 
 pub fn replay(rep: &mut Report, case: &serde_json::Value) {
     if runall::replay(rep, case) { return; }
+    if thenfilter::replay(rep, case) { return; }
     let ctx = ctx_new(rep);
     match case_from_json(case) {
         Some(c) => evaluate(rep, &ctx, &[c], "replay"),
